@@ -5,7 +5,8 @@ Mirrors `doit/cmd_list.py` (`List._execute`, `_print_task`: `status_is_ignore`, 
 `STATUS_MAP`), `doit/cmd_info.py` (`Info._execute`: `get_status(task, tasks, get_log=True)`, `get_reasons`),
 `doit/cmd_clean.py` (`Clean.clean_tasks`: `forget_tasks = cleanforget and not dryrun`), and `cmd_help.py`,
 `cmd_dumpdb.py`, `cmd_completion.py` (which never create a `Dependency` object), on top of the status model
-`Model/Status.lean` (`statusOf` = `get_status(get_log=False)`, `statusLog` = `get_status(get_log=True)`).
+`Model/Status.lean` (`statusOf` = `get_status(get_log=False)`; `get_status(get_log=True)` is `logStatus` below: the
+final loop of the present tree, which also lists a dependency that the last recorded execution did not have).
 
 A command is a function on the state of the status model plus the list of DB *write* operations it performs (the
 only one any of these commands can perform is the `remove(task)` of `get_status` on a checker change).  None of
@@ -58,21 +59,67 @@ def listRun : St → List Name → List Shown
   | _, [] => []
   | s, t :: rest => (if s.crashed then .crash else listShown s t) :: listRun (listOne s t) rest
 
+/-! ## `get_status(get_log=True)` on the present tree
+
+The final loop of `get_status` (after the `fix:` commit "a file_dep added back to a task is reported as changed"):
+`if state is None or (previous_set is not None and dep not in previous_set) or check_modified(dep, file_stat, state)`.
+The `or` short-circuits: `check_modified` (which may raise on a state of the wrong shape) is not called for a
+dependency that is not in the saved `deps:` list.  `Status.statusLog` is the same computation with the loop of the
+tree before that commit. -/
+
+/-- `previous_set is not None and dep not in previous_set` -/
+def notInPrev (r : Rcd) (p : Path) : Bool :=
+  match r.deps with
+  | none => false
+  | some prev => !decide (p ∈ prev)
+
+/-- the dependency exists and is appended to `changed` -/
+def depListed (c : Checker) (r : Rcd) (fs : FS) (p : Path) : Bool :=
+  match fs p with
+  | none => false
+  | some cur =>
+    match r.fstate p with
+    | none => true
+    | some st => notInPrev r p || checkModified c st cur == .modified
+
+/-- `check_modified` is reached for the dependency and raises -/
+def depRaises (c : Checker) (r : Rcd) (fs : FS) (p : Path) : Bool :=
+  match fs p with
+  | none => false
+  | some cur =>
+    match r.fstate p with
+    | none => false
+    | some st => !notInPrev r p && checkModified c st cur == .crash
+
+/-- `Dependency.get_status(task, tasks, get_log=True).status`: no early exit, every check runs; a missing dependency
+    sets `error`, but a `changed_file_dep` reason (set after the loop) sets `run` again -/
+def logStatus (c : Checker) (d : TaskDef) (r : Rcd) (fs : FS) (resOf : Name → Option Res) : Status :=
+  if d.deps.any (depRaises c (logRcd c r) fs) then .crash
+  else if d.deps.any (depListed c (logRcd c r) fs) then .run
+  else if d.deps.any (depMissing fs) then .error
+  else if earlyRun d r.getValues resOf fs || checkerChanged c r || depsChanged true (logRcd c r) d.deps then .run
+  else .upToDate
+
+def logStatusAt (s : St) (t : Name) : Status :=
+  logStatus s.checker (s.defs t) (s.rcd t) s.fs s.resOf
+
 /-- `Info._execute` (tree as repaired): `status_is_ignore` first -- then nothing else is looked at --, else
     `get_status(task, tasks, get_log=True).status` -/
 def infoShown (s : St) (t : Name) : Shown :=
-  if (s.rcd t).ign then .ignore else ofStatus (s.statusLog t)
+  if (s.rcd t).ign then .ignore else ofStatus (logStatusAt s t)
 
 /-- the pinned `Info._execute`: never consulted `ignore:` -/
-def infoShownPinned (s : St) (t : Name) : Shown := ofStatus (s.statusLog t)
+def infoShownPinned (s : St) (t : Name) : Shown := ofStatus (logStatusAt s t)
 
 /-- effect of `info t` (status shown): an ignored task is not looked at, otherwise `get_status(get_log=True)` runs -/
 def infoOne (s : St) (t : Name) : St :=
-  if (s.rcd t).ign then s else step true s (.info t)
+  if s.crashed || (s.rcd t).ign then s
+  else if logStatusAt s t == .crash then { s with crashed := true }
+  else if checkerChanged s.checker (s.rcd t) then erase s t else s
 
 /-- does `get_status` call `self.remove(task)` -/
 def removesAt (getLog : Bool) (s : St) (t : Name) : Bool :=
-  if getLog then s.statusLog t != .crash && checkerChanged s.checker (s.rcd t)
+  if getLog then logStatusAt s t != .crash && checkerChanged s.checker (s.rcd t)
   else s.status true t != .crash && removesRecord s.checker (s.defs t) (s.rcd t) s.fs s.resOf
 
 /-- DB write operations of `list -s`: the tasks whose record is removed, in order -/
@@ -111,7 +158,7 @@ def reasonsOf (c : Checker) (d : TaskDef) (r : Rcd) (fs : FS) (resOf : Name → 
     utdFalse := d.uptodate.filter fun u => evalUtd r.getValues resOf u == some false
     checkerChanged := ckReason c r
     missingTarget := d.targets.filter (depMissing fs)
-    changed := d.deps.filter (depIs .modified c (logRcd c r) fs)
+    changed := d.deps.filter (depListed c (logRcd c r) fs)
     missingDep := d.deps.filter (depMissing fs)
     removed := if depsChanged true (logRcd c r) d.deps then (prevDeps (logRcd c r)).filter (· ∉ d.deps) else []
     added := if depsChanged true (logRcd c r) d.deps then d.deps.filter (· ∉ prevDeps (logRcd c r)) else [] }
